@@ -21,6 +21,16 @@ Decided (structural necessary conditions of the over-approximation):
      hand-over between alternatives, no subtraction of sibling defines).
  R6  kill-set provenance in ``visit_CallStatement``: the symbols removed from
      the call's defines (array subscripts) derive from the out/inout actuals only.
+ R7  what a memory query excludes is one occurrence, not a name: the argument of
+     ``size`` / ``lbound`` / ``ubound`` / ``present`` is not a read, but the handlers
+     must not remove it from the used symbols by *equality* (``v not in
+     query_args``) -- that also removes every genuine read of the same variable in
+     the expression (``m = sum(a)/size(a)``) -- nor filter a set whose subscripts
+     have already been stripped.  The exclusion is by identity of the queried
+     occurrence (first parameter of the query call) only.
+ R8  a DO WHILE condition is read before anything in the body runs: its symbols
+     enter ``uses`` before the body is visited (not ``condition - defines``
+     afterwards: the condition is evaluated on entry, also for zero iterations).
 Not decided: aliasing, array sections, interprocedural effects.
 """
 import ast
@@ -381,9 +391,91 @@ def run(ctx):
             ctx.violation('R6', 'visit_CallStatement:kill-set:dims', cs.where,
                           f'symbols removed from the defines of an enriched call (`{kname}`) derive from {sorted(src)}: a subscript of an '
                           f'intent(in) actual that is also passed to an out/inout dummy is dropped from defines_symbols')
+    run_r78(ctx, A)
+
+
+def run_r78(ctx, A):
+    m = ctx.model
+    ctx.rule('R7', 'memory-query arguments are excluded by identity of the queried occurrence (first parameter), never by equality / on stripped symbols')
+    ctx.rule('R8', 'visit_WhileLoop: the condition symbols are in `uses` before the body is visited')
+    n7 = 0
+    helper = None
+    for name, mem in A.members.items():
+        if mem.kind != 'func':
+            continue
+        txt = ast.unparse(mem.node)
+        if '_mem_property_queries' not in txt:
+            continue
+        n7 += 1
+        if name.startswith('visit_'):
+            ctx.violation('R7', f'DataflowAnalysisAttacher.{name}:query-exclusion-in-handler', f'{A.module.relpath}:{mem.node.lineno}',
+                          f'{name} filters the used symbols against the arguments of memory queries itself; the filters written this way '
+                          f'compared by equality (`v not in query_args`), which drops every other read of the queried variable')
+            continue
+        helper = mem
+        # the helper: queried = [c.parameters[0] ...]; result filters by identity
+        firsts = [s_ for s_ in ast.walk(mem.node) if isinstance(s_, ast.Subscript) and isinstance(s_.value, ast.Attribute) and s_.value.attr == 'parameters']
+        only_first = bool(firsts) and all(isinstance(s_.slice, ast.Constant) and s_.slice.value == 0 for s_ in firsts) and not any(
+            isinstance(a_, ast.Attribute) and a_.attr == 'parameters' and not any(a_ is s_.value for s_ in firsts)
+            and not isinstance(getattr(a_, 'ctx', None), ast.Store) and not any(isinstance(p_, ast.comprehension) and a_ in list(ast.walk(p_.ifs[0] if p_.ifs else ast.Pass()))
+                                                                                for p_ in ast.walk(mem.node)) for a_ in ast.walk(mem.node))
+        by_identity = any(isinstance(c_, ast.Compare) and isinstance(c_.ops[0], (ast.Is, ast.IsNot)) for c_ in ast.walk(mem.node))
+        qnames = set(X.names_assigned_from(mem.node, '.parameters'))
+        by_equality = any(isinstance(c_, ast.Compare) and isinstance(c_.ops[0], (ast.In, ast.NotIn, ast.Eq, ast.NotEq))
+                          and any(isinstance(n_, ast.Name) and n_.id in qnames for n_ in ast.walk(c_.comparators[0]))
+                          for c_ in ast.walk(mem.node))
+        stripped = '_symbols_from_expr' in txt
+        if by_identity and not by_equality and not stripped and firsts:
+            ctx.judge('R7', f'{name}: exclusion by identity of the queried occurrence', facts={'first_parameter_only': only_first})
+        else:
+            ctx.violation('R7', f'DataflowAnalysisAttacher.{name}:query-exclusion', f'{A.module.relpath}:{mem.node.lineno}',
+                          f'{name} excludes memory-query arguments ' + ('by equality' if by_equality else 'not by identity') +
+                          (' on symbols whose subscripts were already stripped' if stripped else '') +
+                          ': every genuine read of the queried variable in the same expression disappears from uses_symbols')
+    if helper is None and n7 == 0:
+        raise AnalysisError('no memory-query handling found in DataflowAnalysisAttacher: rule R7 is stale')
+    users = [name for name, mem in A.members.items() if mem.kind == 'func' and name.startswith('visit_') and helper is not None
+             and f'self.{helper.name}(' in ast.unparse(mem.node)]
+    inhandler = sum(1 for f_ in ctx.findings if f_.rule == 'R7' and 'in-handler' in f_.construct)
+    ctx.floor('R7', 'handlers excluding memory-query arguments', len(users) + inhandler, 4)
+    for name in users:
+        mem = A.members[name]
+        # the helper's result must not be filtered again against query arguments, nor be applied to a stripped set
+        args = [c_.args[0] for c_ in ast.walk(mem.node) if isinstance(c_, ast.Call) and X.dotted_attr(c_.func) == f'self.{helper.name}' and c_.args]
+        bad = [a_ for a_ in args if '_symbols_from_expr' in ast.unparse(a_)]
+        (ctx.judge('R7', f'{name} applies the helper to the raw expression') if not bad else
+         ctx.violation('R7', f'DataflowAnalysisAttacher.{name}:query-exclusion-on-stripped-symbols', f'{A.module.relpath}:{mem.node.lineno}',
+                       f'{name} applies the query exclusion to `{ast.unparse(bad[0])}`, i.e. after the subscripts were stripped'))
+    # ---- R8
+    wl = A.function('visit_WhileLoop')
+    if wl is None:
+        raise AnalysisError('DataflowAnalysisAttacher.visit_WhileLoop vanished')
+    par = [a.arg for a in wl.node.args.args][1]
+    body_calls = [c_ for c_ in ast.walk(wl.node) if isinstance(c_, ast.Call) and X.dotted_attr(c_.func) == 'self._visit_body']
+    if not body_calls:
+        raise AnalysisError('visit_WhileLoop: body visit not found')
+    bc = body_calls[0]
+    cond_names = set(X.names_assigned_from(wl.node, f'{par}.condition'))
+    uses_kw = next((k.value for k in bc.keywords if k.arg == 'uses'), None)
+    ok = uses_kw is not None and (f'{par}.condition' in ast.unparse(uses_kw) or any(isinstance(n_, ast.Name) and n_.id in cond_names for n_ in ast.walk(uses_kw)))
+    if ok:
+        ctx.judge('R8', 'visit_WhileLoop: condition symbols seed the uses of the body visit')
+    else:
+        ctx.violation('R8', 'DataflowAnalysisAttacher.visit_WhileLoop:condition-after-body', f'{A.module.relpath}:{bc.lineno}',
+                      'the body of a DO WHILE is visited without the condition symbols in `uses`: a condition variable that the body overwrites '
+                      '(a convergence flag) is then treated as defined before use and disappears from uses_symbols, although the condition '
+                      'is evaluated before the first (and for zero) iterations')
 
 
 MUTANTS = [
+    Mutant('while-condition-after-body', FILE,
+           "        uses = self._symbols_from_expr(o.condition)\n        body, defines, uses = self._visit_body(o.body, live=live, uses=uses, **kwargs)\n        o._update(body=body)\n        return self.visit_Node(o, live_symbols=live, defines_symbols=defines, uses_symbols=uses, **kwargs)\n\n    def visit_Conditional",
+           "        body, defines, uses = self._visit_body(o.body, live=live, **kwargs)\n        uses |= self._symbols_from_expr(o.condition) - defines\n        o._update(body=body)\n        return self.visit_Node(o, live_symbols=live, defines_symbols=defines, uses_symbols=uses, **kwargs)\n\n    def visit_Conditional",
+           expect=('R8', 'condition-after-body')),
+    Mutant('query-exclusion-by-equality', FILE, "        return OrderedSet(v for v in FindVariables(unique=False).visit(expr) if not any(v is q for q in queried))",
+           "        return OrderedSet(v for v in FindVariables(unique=False).visit(expr) if v not in queried)", expect=('R7', 'query-exclusion')),
+    Mutant('query-exclusion-on-stripped', FILE, "        rset = self._query_free_variables(o.rhs)", "        rset = self._query_free_variables(self._symbols_from_expr(o.rhs))",
+           expect=('R7', 'on-stripped-symbols')),
     Mutant('drop-handler', FILE, "    visit_Nullify = visit_Deallocation\n", "", expect=('R2', 'Nullify.variables'), quick=True),
     Mutant('assignment-skips-rhs', FILE,
            "        uses |= self._symbols_from_expr(as_tuple(rset))\n        return self.visit_Node(o, defines_symbols=defines, uses_symbols=uses, **kwargs)",
